@@ -303,3 +303,14 @@ def run(facts, rep, ctx):
     tb5(facts, rep)
     gd5(facts, rep)
     gd8(facts, rep)
+
+
+_run_before_round4b = run
+
+
+def run(facts, rep, ctx):
+    """further rules added after the third seeding round (rules/round4.py)"""
+    _run_before_round4b(facts, rep, ctx)
+    from . import round4
+    round4.tb5b(facts, rep)
+
